@@ -194,3 +194,66 @@ def gen_c04(seed, count):
 
 
 PYGEN['py_c04'] = gen_c04
+
+
+def gen_c12(seed, count):
+    """histories that end badly in every way the property lists, with small and full transmit arenas, followed by a
+    connect() over a healthy transport to a conformant broker (broker mode 2) and a little use of the session"""
+    out = []
+    for idx in range(count):
+        r = random.Random((seed << 20) ^ (idx + 611953))
+        tx = r.choice([40, 48, 64, 96, 128, 256])
+        c = Case(rx=r.choice([32, 64, 128]), tx=tx, ka=r.choice([0, 0, 10]), cid=r.choice([b't', b'client-12']))
+        nio = 0
+        for _ in range(r.randint(1, 3)):
+            kind = r.random()
+            if kind < 0.25:
+                c.connect(connack(0, r.choice([0x80, 0x87, 0x89, 0x95]), []))          # rejected
+            elif kind < 0.40:
+                c.connect(bytes(r.randrange(256) for _ in range(r.randint(1, 9))))     # garbled
+            elif kind < 0.50:
+                c.connect(connack(0, 0, [(33, 0)]))                                    # illegal CONNACK
+            elif kind < 0.58:
+                c.connect()                                                            # no answer: dropped while waiting
+            else:
+                sp = 1 if r.random() < 0.5 else 0
+                c.connect(connack(sp, 0, r.choice([[], [(33, 2)], [(39, 30)], [(18, b'assigned-by-broker')]])))
+                for _ in range(r.randint(0, 9)):
+                    x = r.random()
+                    if x < 0.5:
+                        c.publish(b'a/b', b'p' * r.choice([0, 5, 20, 40, 90]), qos=r.choice([1, 1, 2]))
+                    elif x < 0.65:
+                        c.subscribe(((b'some/filter/' + bytes([97 + r.randint(0, 9)]), 1),))
+                    elif x < 0.75:
+                        c.poll()
+                    elif x < 0.85:
+                        c.feed(publish(2, r.randint(1, 4), b'in', b'q'))
+                        c.poll()
+                    elif x < 0.9:
+                        c.feed(bytes(r.randrange(256) for _ in range(r.randint(1, 6))))
+                        c.poll()
+                    else:
+                        c.disconnect()
+            if r.random() < 0.7:
+                c.drop()
+            else:
+                c.hd()
+        # faults somewhere in the history
+        y = r.random()
+        if y < 0.4:
+            # tiny writes and the future dropped somewhere: likely in the middle of a queued packet
+            n = r.randint(5, 90)
+            c.ev(*([(0, r.choice([1, 2]))] * n + [(3, 0)]))
+        elif y < 0.8:
+            n = r.randint(0, 30)
+            c.ev(*([(0, r.choice([1, 3, 1000]))] * n + [(r.choice([1, 2, 3]), 0)]))
+        c.drop()
+        c.broker(2)
+        c.connect()
+        c.publish(b'after', b'q', qos=1)
+        c.poll(2)
+        out.append(c.line())
+    return out
+
+
+PYGEN['py_c12'] = gen_c12
